@@ -129,7 +129,44 @@ def merge_stats(dst, src):
         dst[k] = dst.get(k, 0) + v
 
 
+def in_fork(fn, *args):
+    """Run fn(*args) in a forked child of this (pristine) worker and return its
+    result.  Worker processes themselves never execute a run: every chunk, replay
+    and shrink starts from the state "anytree just imported", so process-wide
+    hidden state (caches, memo tables - also ones a change to anytree adds) is a
+    deterministic function of the chunk's own history."""
+    import pickle
+
+    r, w = os.pipe()
+    pid = os.fork()
+    if pid == 0:
+        try:
+            os.close(r)
+            try:
+                data = pickle.dumps(("ok", fn(*args)), 4)
+            except BaseException:  # noqa: B902
+                data = pickle.dumps(("err", traceback.format_exc()), 4)
+            with os.fdopen(w, "wb") as f:
+                f.write(data)
+        finally:
+            os._exit(0)
+    os.close(w)
+    with os.fdopen(r, "rb") as f:
+        data = f.read()
+    os.waitpid(pid, 0)
+    if not data:
+        raise RuntimeError("forked run died without a result (killed?)")
+    kind, val = pickle.loads(data)
+    if kind == "err":
+        raise RuntimeError("exception in forked run:\n" + val)
+    return val
+
+
 def work_chunk(prop, tier, seed, runs, want_digests=False, sweep=True):
+    return in_fork(_work_chunk, prop, tier, seed, runs, want_digests, sweep)
+
+
+def _work_chunk(prop, tier, seed, runs, want_digests=False, sweep=True):
     """Execute the given run indices; return aggregated, picklable results."""
     m = machine_of(prop)
     stats = {}
@@ -143,11 +180,13 @@ def work_chunk(prop, tier, seed, runs, want_digests=False, sweep=True):
     steps = 0
     pending = []
     t0 = time.time()
+    done = []
     for r in runs:
         rng = run_rng(seed, prop, tier, r)
         cfg = m.gen_cfg(rng, prop, tier)
         cfg["assert"] = _W["assert"]
         res = m.run(cfg, rng=rng)
+        done.append(r)
         evaluations += 1
         steps += res.steps
         merge_stats(stats, res.stats)
@@ -161,7 +200,7 @@ def work_chunk(prop, tier, seed, runs, want_digests=False, sweep=True):
         if len(samples) < 2 and res.ops:
             samples.append({"run": r, "cfg": m.brief_cfg(cfg), "ops": res.ops[:12], "violation": None})
         if res.violation is not None:
-            violations.append({"run": r, "cfg": cfg, "ops": res.ops, "violation": res.violation.as_dict()})
+            violations.append({"run": r, "cfg": cfg, "ops": res.ops, "violation": res.violation.as_dict(), "history": done[:-1]})
             if len(violations) >= 3:
                 break  # this tree is broken; do not burn the budget (hangs cost a watchdog period each)
             continue
@@ -177,7 +216,7 @@ def work_chunk(prop, tier, seed, runs, want_digests=False, sweep=True):
                 states |= res2.states
                 if res2.violation is not None:
                     violations.append(
-                        {"run": r, "cfg": cfg2, "ops": ops2, "violation": res2.violation.as_dict(), "sweep": True}
+                        {"run": r, "cfg": cfg2, "ops": ops2, "violation": res2.violation.as_dict(), "sweep": True, "history": list(done)}
                     )
                     break
             if len(violations) >= 3:
@@ -200,8 +239,19 @@ def work_chunk(prop, tier, seed, runs, want_digests=False, sweep=True):
     }
 
 
-def work_replay(prop, cfg, ops):
+def run_prelude(m, prop, tier, seed, prelude):
+    """Re-execute earlier runs of the same process history (regenerated from the seed)."""
+    for r in prelude or ():
+        rng = run_rng(seed, prop, tier, r)
+        cfg = m.gen_cfg(rng, prop, tier)
+        cfg["assert"] = _W["assert"]
+        m.run(cfg, rng=rng)
+
+
+def _replay(prop, cfg, ops, prelude=None):
     m = machine_of(prop)
+    if prelude:
+        run_prelude(m, prop, prelude["tier"], prelude["seed"], prelude["runs"])
     res = m.run(cfg, ops=ops)
     return {
         "violation": res.violation.as_dict() if res.violation is not None else None,
@@ -211,9 +261,57 @@ def work_replay(prop, cfg, ops):
     }
 
 
+def work_replay(prop, cfg, ops, prelude=None):
+    return in_fork(_replay, prop, cfg, ops, prelude)
+
+
+def _shrink(prop, cfg, ops, violation, max_execs, max_seconds):
+    return shrink(machine_of(prop), cfg, ops, violation, max_execs, max_seconds)
+
+
 def work_shrink(prop, cfg, ops, violation, max_execs=3000, max_seconds=20.0):
+    sh = in_fork(_shrink, prop, cfg, ops, violation, max_execs, max_seconds)
+    if sh["ok"]:
+        # candidates ran one after the other in one process; make sure the result does not
+        # depend on state the earlier candidates left behind
+        got = in_fork(_replay, prop, sh["cfg"], sh["ops"], None)
+        if same_violation(got["violation"], violation):
+            return sh
+    # isolated mode: every candidate in a fresh fork
     m = machine_of(prop)
-    return shrink(m, cfg, ops, violation, max_execs, max_seconds)
+
+    def run_isolated(c, o):
+        got = in_fork(_replay, prop, c, o, None)
+        return got["violation"], got["digest"]
+
+    return shrink(m, cfg, ops, violation, 500, max_seconds, runner=run_isolated)
+
+
+def work_prelude(prop, tier, seed, history, cfg, ops, violation, max_tests=60):
+    """The violation needs state left behind by earlier runs of the same process:
+    find a minimal list of earlier runs (each test in a fresh fork) after which
+    the recorded run shows the same violation."""
+
+    def test(runs):
+        got = in_fork(_replay, prop, cfg, ops, {"tier": tier, "seed": seed, "runs": runs})
+        return same_violation(got["violation"], violation)
+
+    history = list(history)
+    if not test(history):
+        return None
+    tests = [1]
+    size = max(1, len(history) // 2)
+    while size >= 1 and tests[0] < max_tests:
+        i = 0
+        while i < len(history) and tests[0] < max_tests:
+            cand = history[:i] + history[i + size:]
+            tests[0] += 1
+            if test(cand):
+                history = cand
+            else:
+                i += size
+        size //= 2
+    return {"tier": tier, "seed": seed, "runs": history}
 
 
 # -- minimisation -------------------------------------------------------------------------------
@@ -228,19 +326,25 @@ def same_violation(v, target):
     )
 
 
-def shrink(m, cfg, ops, target, max_execs, max_seconds):
+def shrink(m, cfg, ops, target, max_execs, max_seconds, runner=None):
     t0 = time.time()
     execs = [0]
+
+    def run_here(c, o):
+        r = m.run(c, ops=o)
+        return (r.violation.as_dict() if r.violation is not None else None), r.digest
+
+    runner = runner or run_here
 
     def fails(c, o):
         if execs[0] >= max_execs or time.time() - t0 > max_seconds:
             return False
         execs[0] += 1
         try:
-            r = m.run(c, ops=o)
+            v, _ = runner(c, o)
         except Exception:
             return False
-        return r.violation is not None and same_violation(r.violation.as_dict(), target)
+        return same_violation(v, target)
 
     # truncate behind the failing step
     step = target.get("step")
@@ -284,9 +388,8 @@ def shrink(m, cfg, ops, target, max_execs, max_seconds):
                         cfg, ops = c2, o2
                         progress = changed = True
                         break
-    r = m.run(cfg, ops=ops)
-    v = r.violation.as_dict() if r.violation is not None else None
-    return {"cfg": cfg, "ops": ops, "violation": v, "digest": r.digest, "execs": execs[0], "ok": same_violation(v, target)}
+    v, digest = runner(cfg, ops)
+    return {"cfg": cfg, "ops": ops, "violation": v, "digest": digest, "execs": execs[0], "ok": same_violation(v, target)}
 
 
 # -- parent side ---------------------------------------------------------------------------------
@@ -455,8 +558,12 @@ def check(prop, tier, seed, workers=16, runs=None, wall_cap=None, verbose=True):
                 seen_sig.add(sig)
                 a = v["cfg"].get("assert", 0)
                 sh = pools.submit(a, work_shrink, prop, v["cfg"], v["ops"], v["violation"]).result(timeout=600)
+                prelude = None
                 if not sh["ok"]:
                     sh = {"cfg": v["cfg"], "ops": v["ops"], "violation": v["violation"], "digest": None, "execs": 0, "ok": False}
+                    if v.get("history"):
+                        # not reproducible in isolation: does it need the state earlier runs left in the process?
+                        prelude = pools.submit(a, work_prelude, prop, tier, seed, v["history"], v["cfg"], v["ops"], v["violation"]).result(timeout=900)
                 vprop = v["violation"]["property"]
                 path = replay_path(vprop if vprop != "GUARD" else prop + "-guard", seed, v["run"] if v["run"] >= 0 else 0)
                 rec = {
@@ -470,21 +577,31 @@ def check(prop, tier, seed, workers=16, runs=None, wall_cap=None, verbose=True):
                     "violation": sh["violation"],
                     "digest": sh["digest"],
                     "unminimised": {"cfg": v["cfg"], "ops": v["ops"]} if sh["ok"] else None,
+                    "prelude": prelude,
                     "shrink_execs": sh["execs"],
                 }
                 write_json(path, rec)
                 reported.append((vprop, path, sh["violation"]))
         real = [x for x in reported if x[0] != "GUARD"]
         guard = [x for x in reported if x[0] == "GUARD"]
+        unreplayed = []
+        confirmed = 0
         for vprop, path, v in real:
             code, txt = fresh_replay(path)
             if code != 1:
-                say("HARNESS-ERROR: violation does not replay in a fresh interpreter (exit %d): %s\n%s" % (code, path, txt))
-                exit_code = 2
+                unreplayed.append((path, code, txt))
                 continue
+            confirmed += 1
             say("violation: %s" % v["message"])
             say("VIOLATION property=%s replay=%s" % (vprop, path))
-            exit_code = max(exit_code, 1) if exit_code != 2 else 2
+            exit_code = 1
+        for path, code, txt in unreplayed:
+            if confirmed:
+                say("note: a further violation was seen but did not replay in a fresh interpreter (exit %d), not reported: %s" % (code, path))
+            else:
+                say("HARNESS-ERROR: violation does not replay in a fresh interpreter (exit %d): %s\n%s" % (code, path, txt))
+                exit_code = 2
+        real = real[:confirmed] if not unreplayed else [x for x in real if x[1] not in [u[0] for u in unreplayed]]
         for vprop, path, v in guard:
             say("note: consistency guard tripped (reported by C01's check, not here): %s replay=%s" % (v["message"], path))
 
@@ -564,12 +681,12 @@ def replay_file(path, verbose=True):
     a = rec["cfg"].get("assert", 0)
     known = load_known(prop)
     init_worker(a, [e["key"] for e in known if e["status"] == "open"])
-    got = work_replay(prop, rec["cfg"], rec["ops"])
+    got = _replay(prop, rec["cfg"], rec["ops"], rec.get("prelude"))
     want = rec.get("violation")
     if got["violation"] is not None:
         v = got["violation"]
         same = want is None or (v["clause"] == want["clause"] and v["signature"] == want["signature"] and v["step"] == want["step"])
-        if rec.get("digest") and got["digest"] != rec["digest"]:
+        if rec.get("digest") and got["digest"] != rec["digest"] and not rec.get("prelude"):
             same = False
         print("replay: %s" % v["message"])
         if not same:
